@@ -95,6 +95,9 @@ def expected_len(fields) -> Lin:
 def run(repo: Repo, rep: Report, tier: str) -> None:
     sp = spec()
     pm = PduModel(repo)
+    from ..lints import decoder_loops_complete
+    rep.rule("decoder-complete", "every item loop of the codec hands on each item it frames")
+    rep.floor("codec item loops", decoder_loops_complete(repo, rep, "decoder-complete", None), 6)
     rep.rule("layout", "field sequence of _encoders == PS3.8/PS3.7 table (kind, width, reserved value, attribute order, big-endian)")
     rep.rule("length", "pdu_length / item_length / sub-length properties == sum of the widths of what follows, on every path")
     rep.rule("header", "__len__ adds exactly the bytes up to and including the length field")
